@@ -120,6 +120,9 @@ Proof. intros a b c r [H1 H2]. split; cbn; auto. Qed.
 Lemma mono_set_th : forall a b n t c, mono a b -> mono a (set_th b n t c).
 Proof. intros a b n t c [H1 H2]. split; cbn; auto. Qed.
 
+Lemma mono_set_conns : forall a b s, mono a b -> mono a (set_conns b s).
+Proof. intros a b s [H1 H2]. split; cbn; auto. Qed.
+
 Lemma mono_inv : forall a b i k, mono a b ->
   mono a (Agent (a_vdr b) (a_conns b) (a_thmap b) (a_keyidx b) ((i, k) :: a_invs b)).
 Proof. intros a b i k [H1 H2]. split; cbn; auto. Qed.
@@ -150,7 +153,7 @@ Ltac brk := repeat (match goal with
   | |- context [match ?x with _ => _ end] => destruct x eqn:?
   end; cbn [fst snd]).
 
-#[local] Hint Resolve mono_refl mono_set_conn mono_set_th mono_inv mono_set_vdr mono_set_keys mono_sbr mono_new_my : c10.
+#[local] Hint Resolve mono_refl mono_set_conns mono_set_conn mono_set_th mono_inv mono_set_vdr mono_set_keys mono_sbr mono_new_my : c10.
 
 Lemma step_mono : forall a i, mono a (fst (step Fixed a i)).
 Proof.
@@ -185,11 +188,33 @@ Proof.
   - intros n' t'. rewrite tget_cons. destruct (ns_eqb n' n1 && N.eqb t' t1); intros H; [inversion H; congruence|auto].
 Qed.
 
+Lemma cget_rot : forall my iss sub s c,
+  cget (rot_conns my iss sub s) c = option_map (rot_rec my iss sub) (cget s c).
+Proof.
+  induction s as [|[c' r] s IH]; intros c; cbn; [reflexivity|].
+  destruct (N.eqb c c'); [reflexivity|apply IH].
+Qed.
+
+Lemma rot_rec_id : forall my iss sub signer their d r,
+  (c_their r = d \/ c_their r = 0) -> ~ (signer = iss /\ iss = d) ->
+  N.eqb their sub && negb (N.eqb iss 0) && N.eqb signer iss = true -> rot_rec my iss sub r = r.
+Proof.
+  intros my iss sub signer their d r HD NR C.
+  apply andb_true_iff in C. destruct C as [C C3]. apply andb_true_iff in C. destruct C as [_ C2].
+  apply N.eqb_eq in C3. apply negb_true_iff in C2. apply N.eqb_neq in C2.
+  unfold rot_rec. replace (N.eqb (c_their r) iss) with false; [rewrite andb_false_r; reflexivity|].
+  symmetry. apply N.eqb_neq. intros E. destruct HD as [HD|HD].
+  - apply NR. split; congruence.
+  - congruence.
+Qed.
+
 (* what one step can do to the record of somebody else's thread: nothing *)
-Lemma step_frame : forall v a i n t c r, foreign n t c i -> owns a n t c -> cget (a_conns a) c = Some r ->
+Lemma step_frame : forall v a i n t c r d, (v = Fixed \/ ids_agree i) ->
+  (c_their r = d \/ c_their r = 0) -> not_rotating d i ->
+  foreign n t c i -> owns a n t c -> cget (a_conns a) c = Some r ->
   owns (fst (step v a i)) n t c /\ cget (a_conns (fst (step v a i))) c = Some r.
 Proof.
-  intros v a i n t c r [FT FC] OW CG.
+  intros v a i n t c r d AG HD NR [FT FC] OW CG.
   assert (LOOK : forall n' t' c', tget (a_thmap a) n' t' = Some c' -> (ns_eqb n n' && N.eqb t t' = false) -> c' <> c).
   { intros n' t' c' H NT E. subst. destruct OW as [_ O2]. destruct (O2 _ _ H) as [-> ->].
     rewrite N.eqb_refl in NT. destruct n; discriminate. }
@@ -206,13 +231,21 @@ Proof.
       * destruct B1 as [B1 B2]. split; cbn [set_conn a_thmap]; rewrite E2; auto.
       * rewrite cget_set_other by auto. rewrite E1. cbn [set_th a_conns]. rewrite cget_set_other by auto. exact CG.
     + split; [exact B1|]. rewrite cget_set_other by auto. cbn [set_th a_conns]. rewrite cget_set_other by auto. exact CG.
-  - destruct m as [p t0 pt d dco | p t0 d dco sg | p t0 | fk tk | fd td | dc fk tk].
+  - destruct m as [p t0 rid pt d0 dco | p t0 d0 dco sg | p t0 | fk tk | fd td | dc fk tk | iss sub signer fk tk].
     + (* request *)
       cbn [touches input_cid] in FT, FC. assert (NC : c0 <> c) by congruence. assert (NC' : c <> c0) by congruence.
       unfold step.
       destruct (negb (can (cur_state a Their t0) SRequested)); [cbn; auto|].
       destruct (N.eqb pt 0); [cbn; auto|].
-      set (r0 := Conn Their t0 SRequested 0 d 0).
+      assert (RID : rid = t0 \/ (match v with Fixed => negb (N.eqb t0 rid) | AsIs => false end) = true).
+      { destruct v.
+        - left. destruct AG as [AG|AG]; [discriminate|exact AG].
+        - destruct (N.eqb t0 rid) eqn:Q; [left; apply N.eqb_eq in Q; auto|right; reflexivity]. }
+      destruct RID as [->|RID]; [|rewrite RID; cbn; auto].
+      replace (match v with Fixed => negb (N.eqb t0 t0) | AsIs => false end) with false
+        by (destruct v; [reflexivity|rewrite N.eqb_refl; reflexivity]).
+      cbv zeta.
+      set (r0 := Conn Their t0 SRequested 0 d0 0).
       assert (B1 : owns (set_th (set_conn a c0 r0) Their t0 c0) n t c) by (apply owns_set_th; auto).
       assert (C1 : cget (a_conns (set_th (set_conn a c0 r0) Their t0 c0)) c = Some r).
       { cbn [set_th a_conns]. rewrite cget_set_other by auto. exact CG. }
@@ -247,7 +280,7 @@ Proof.
       destruct dco as [dc|]; [|apply K1; auto].
       destruct (vput v _ dc) as [s|]; [|apply K1; auto].
       destruct (d_keys dc); [apply K1; exact B1 || exact C1|].
-      destruct (save_by_resolving v _ d _) as [a4 ok] eqn:SB.
+      destruct (save_by_resolving v _ d0 _) as [a4 ok] eqn:SB.
       apply sbr_proj in SB. destruct SB as (E1 & E2 & E3 & _).
       cbn [fst]. split.
       * destruct B1 as [X Y]. split; rewrite E3; cbn; auto.
@@ -270,24 +303,33 @@ Proof.
       destruct (set_keys v (set_vdr a s) (d_id dc) (d_keys dc)) as [a1 ok] eqn:SK.
       apply set_keys_proj in SK. destruct SK as (_ & E2 & E3 & _). cbn [fst].
       split; [destruct OW as [X Y]; split; rewrite E3; cbn; auto | rewrite E2; exact CG].
+    + unfold step. destruct (kget (a_keyidx a) tk) as [my1|]; [|cbn; auto].
+      destruct (kget (a_keyidx a) fk) as [their|]; [|cbn; auto].
+      destruct (N.eqb their sub && negb (N.eqb iss 0) && N.eqb signer iss) eqn:C; [|cbn; auto].
+      cbn [fst]. split; [exact OW|]. cbn [set_conns a_conns]. rewrite cget_rot, CG. cbn [option_map].
+      f_equal. eapply rot_rec_id; eauto.
 Qed.
 
-Lemma run_frame : forall v is a n t c r, Forall (foreign n t c) is -> owns a n t c -> cget (a_conns a) c = Some r ->
+Lemma run_frame : forall v is a n t c r d, (v = Fixed \/ Forall ids_agree is) ->
+  (c_their r = d \/ c_their r = 0) -> Forall (not_rotating d) is ->
+  Forall (foreign n t c) is -> owns a n t c -> cget (a_conns a) c = Some r ->
   owns (final v a is) n t c /\ cget (a_conns (final v a is)) c = Some r.
 Proof.
-  induction is as [|i rest IH]; intros a n t c r F OW CG; unfold final; cbn [run fst]; [auto|].
-  inversion F as [|? ? F1 F2]; subst.
+  induction is as [|i rest IH]; intros a n t c r d AG HD NR F OW CG; unfold final; cbn [run fst]; [auto|].
+  inversion F as [|? ? F1 F2]; subst. inversion NR as [|? ? N1 N2]; subst.
+  assert (AG1 : v = Fixed \/ ids_agree i) by (destruct AG as [AG|AG]; [auto|inversion AG; auto]).
+  assert (AG2 : v = Fixed \/ Forall ids_agree rest) by (destruct AG as [AG|AG]; [auto|inversion AG; auto]).
   destruct (step v a i) as [a1 o] eqn:E. destruct (run v a1 rest) as [a2 os] eqn:R. cbn [fst].
-  pose proof (step_frame v a i n t c r F1 OW CG) as [O1 C1]. rewrite E in O1, C1. cbn [fst] in O1, C1.
-  pose proof (IH a1 n t c r F2 O1 C1) as [O2 C2]. unfold final in O2, C2. rewrite R in O2, C2. auto.
+  pose proof (step_frame v a i n t c r d AG1 HD N1 F1 OW CG) as [O1 C1]. rewrite E in O1, C1. cbn [fst] in O1, C1.
+  pose proof (IH a1 n t c r d AG2 HD N2 F2 O1 C1) as [O2 C2]. unfold final in O2, C2. rewrite R in O2, C2. auto.
 Qed.
 
 (* a completed record is terminal: no input changes it (only a re-used connection id could shadow it) *)
 Lemma step_completed_stable : forall v a i c r, cget (a_conns a) c = Some r -> c_state r = SCompleted ->
-  (forall c', input_cid i = Some c' -> cget (a_conns a) c' = None) ->
+  (forall c', input_cid i = Some c' -> cget (a_conns a) c' = None) -> not_rotating (c_their r) i ->
   cget (a_conns (fst (step v a i))) c = Some r.
 Proof.
-  intros v a i c r CG ST FR.
+  intros v a i c r CG ST FR NR.
   assert (NEWC : forall c0, input_cid i = Some c0 -> c <> c0).
   { intros c0 H E. subst. rewrite (FR _ H) in CG. discriminate. }
   destruct i as [i0 k0 | p i0 k0 e0 c0 t0 my | m c0 my].
@@ -297,12 +339,14 @@ Proof.
     + apply new_my_proj in NM. destruct NM as (E1 & _). rewrite cget_set_other by auto. rewrite E1.
       cbn [set_th a_conns]. rewrite cget_set_other by auto. exact CG.
     + rewrite cget_set_other by auto. cbn [set_th a_conns]. rewrite cget_set_other by auto. exact CG.
-  - destruct m as [p t0 pt d dco | p t0 d dco sg | p t0 | fk tk | fd td | dc fk tk].
+  - destruct m as [p t0 rid pt d0 dco | p t0 d0 dco sg | p t0 | fk tk | fd td | dc fk tk | iss sub signer fk tk].
     + assert (NC : c <> c0) by (apply NEWC; reflexivity). unfold step.
       destruct (negb (can (cur_state a Their t0) SRequested)); [cbn; auto|].
       destruct (N.eqb pt 0); [cbn; auto|].
-      set (r0 := Conn Their t0 SRequested 0 d 0).
-      assert (C1 : cget (a_conns (set_th (set_conn a c0 r0) Their t0 c0)) c = Some r).
+      destruct (match v with Fixed => negb (N.eqb t0 rid) | AsIs => false end); [cbn; auto|].
+      cbv zeta.
+      set (r0 := Conn Their rid SRequested 0 d0 0).
+      assert (C1 : cget (a_conns (set_th (set_conn a c0 r0) Their rid c0)) c = Some r).
       { cbn [set_th a_conns]. rewrite cget_set_other by auto. exact CG. }
       assert (AB : forall x, cget (a_conns x) c = Some r ->
                 cget (a_conns (fst (set_conn x c0 (with_state r0 SAbandoned), @nil out))) c = Some r).
@@ -328,7 +372,7 @@ Proof.
       destruct dco as [dc|]; [|exact C1].
       destruct (vput v _ dc) as [s|]; [|exact C1].
       destruct (d_keys dc); [exact C1|].
-      destruct (save_by_resolving v _ d _) as [a4 ok] eqn:SB.
+      destruct (save_by_resolving v _ d0 _) as [a4 ok] eqn:SB.
       apply sbr_proj in SB. destruct SB as (_ & E2 & _).
       cbn [fst]. rewrite E2. rewrite cget_set_other by auto. exact C1.
     + unfold step.
@@ -345,16 +389,22 @@ Proof.
     + unfold step. destruct (vput v (a_vdr a) dc) as [s|]; [|cbn; auto].
       destruct (set_keys v (set_vdr a s) (d_id dc) (d_keys dc)) as [a1 ok] eqn:SK.
       apply set_keys_proj in SK. destruct SK as (_ & E2 & _). cbn [fst]. rewrite E2. exact CG.
+    + unfold step. destruct (kget (a_keyidx a) tk) as [my1|]; [|cbn; auto].
+      destruct (kget (a_keyidx a) fk) as [their|]; [|cbn; auto].
+      destruct (N.eqb their sub && negb (N.eqb iss 0) && N.eqb signer iss) eqn:C; [|cbn; auto].
+      cbn [fst set_conns a_conns]. rewrite cget_rot, CG. cbn [option_map].
+      f_equal. eapply rot_rec_id; [left; reflexivity|exact NR|exact C].
 Qed.
 
-Lemma run_completed_stable : forall v is a c r, fresh_ids v a is -> cget (a_conns a) c = Some r -> c_state r = SCompleted ->
+Lemma run_completed_stable : forall v is a c r, fresh_ids v a is -> Forall (not_rotating (c_their r)) is ->
+  cget (a_conns a) c = Some r -> c_state r = SCompleted ->
   cget (a_conns (final v a is)) c = Some r.
 Proof.
-  induction is as [|i rest IH]; intros a c r F CG ST; unfold final; cbn [run fst]; [auto|].
-  cbn [fresh_ids] in F. destruct F as [F1 F2].
-  pose proof (step_completed_stable v a i c r CG ST F1) as C1.
+  induction is as [|i rest IH]; intros a c r F NR CG ST; unfold final; cbn [run fst]; [auto|].
+  cbn [fresh_ids] in F. destruct F as [F1 F2]. inversion NR as [|? ? N1 N2]; subst.
+  pose proof (step_completed_stable v a i c r CG ST F1 N1) as C1.
   destruct (step v a i) as [a1 o] eqn:E. destruct (run v a1 rest) as [a2 os] eqn:R. cbn [fst] in *.
-  pose proof (IH a1 c r F2 C1 ST) as C2. unfold final in C2. rewrite R in C2. exact C2.
+  pose proof (IH a1 c r F2 N2 C1 ST) as C2. unfold final in C2. rewrite R in C2. exact C2.
 Qed.
 
 (* ---------- the four protocol steps ---------- *)
@@ -372,7 +422,7 @@ Qed.
 Lemma accept_ok : forall v B p i k e c t my e' ks m,
   unused B c ->
   snd (step v B (IAcceptInv p i k e c t my)) = [OSend e' ks m] ->
-  m = MRequest p t i (d_id my) (Some my) /\
+  m = MRequest p t t i (d_id my) (Some my) /\
   cget (a_conns (fst (step v B (IAcceptInv p i k e c t my)))) c = Some (Conn My t SRequested (d_id my) 0 k) /\
   owns (fst (step v B (IAcceptInv p i k e c t my))) My t c.
 Proof.
@@ -386,18 +436,19 @@ Qed.
 
 Lemma request_ok : forall A p t pt d dc c my e ks m,
   unused A c ->
-  snd (step Fixed A (IRecv (MRequest p t pt d (Some dc)) c my)) = [OSend e ks m] ->
+  snd (step Fixed A (IRecv (MRequest p t t pt d (Some dc)) c my)) = [OSend e ks m] ->
   exists ik rk, m = MResponse p t (d_id my) (Some my) ik /\ e = d_ep dc /\ ks = d_keys dc /\
-  cget (a_conns (fst (step Fixed A (IRecv (MRequest p t pt d (Some dc)) c my)))) c
+  cget (a_conns (fst (step Fixed A (IRecv (MRequest p t t pt d (Some dc)) c my)))) c
     = Some (Conn Their t SResponded (d_id my) d rk) /\
-  owns (fst (step Fixed A (IRecv (MRequest p t pt d (Some dc)) c my))) Their t c /\
-  vget (a_vdr (fst (step Fixed A (IRecv (MRequest p t pt d (Some dc)) c my)))) (d_id dc) = Some dc /\
+  owns (fst (step Fixed A (IRecv (MRequest p t t pt d (Some dc)) c my))) Their t c /\
+  vget (a_vdr (fst (step Fixed A (IRecv (MRequest p t t pt d (Some dc)) c my)))) (d_id dc) = Some dc /\
   (forall k, In k (d_keys my) ->
-     kget (a_keyidx (fst (step Fixed A (IRecv (MRequest p t pt d (Some dc)) c my)))) k = Some (d_id my)).
+     kget (a_keyidx (fst (step Fixed A (IRecv (MRequest p t t pt d (Some dc)) c my)))) k = Some (d_id my)).
 Proof.
   intros A p t pt d dc c my e ks m [U1 U2] H. unfold step in *.
   destruct (negb (can (cur_state A Their t) SRequested)); [cbn in H; discriminate|].
   destruct (N.eqb pt 0); [cbn in H; discriminate|].
+  rewrite N.eqb_refl in *. cbn [negb] in *. cbv zeta in *.
   destruct (vput Fixed _ dc) as [s|] eqn:VP; [|cbn in H; discriminate].
   destruct (d_keys dc) as [|k0 kr] eqn:DK; [cbn in H; discriminate|].
   destruct (new_my Fixed _ my) as [a3|] eqn:NM; [|cbn in H; discriminate].
@@ -496,6 +547,7 @@ Lemma mutual_run : forall p t i k eA cA cB docB myA A1 B1 midA postA midB postB 
   unused A1 cA -> unused B1 cB ->
   Forall (foreign Their t cA) midA -> Forall (foreign Their t cA) postA ->
   Forall (foreign My t cB) midB -> Forall (foreign My t cB) postB ->
+  Forall (not_rotating (d_id docB)) (midA ++ postA) -> Forall (not_rotating (d_id myA)) (midB ++ postB) ->
   let B2 := fst (step Fixed B1 (IAcceptInv p i k eA cB t docB)) in
   snd (step Fixed B1 (IAcceptInv p i k eA cB t docB)) = [OSend e1 k1 req] ->
   let A2 := fst (step Fixed A1 (IRecv req cA myA)) in
@@ -518,7 +570,8 @@ Lemma mutual_run : forall p t i k eA cA cB docB myA A1 B1 midA postA midB postB 
   (forall z, In z (d_keys myA) -> kget (a_keyidx B') z = Some (d_id myA)).
 Proof.
   intros p t i k eA cA cB docB myA A1 B1 midA postA midB postB req resp cmpl e1 k1 e2 k2 e3 k3 xa ya xb yb
-         UA UB FmA FpA FmB FpB B2 H1 A2 H2 B3 B4 H3 A3 A4 A' B'.
+         UA UB FmA FpA FmB FpB NRA NRB B2 H1 A2 H2 B3 B4 H3 A3 A4 A' B'.
+  apply Forall_app in NRA. destruct NRA as [NRmA NRpA]. apply Forall_app in NRB. destruct NRB as [NRmB NRpB].
   (* bob handles the invitation *)
   destruct (accept_ok Fixed B1 p i k eA cB t docB e1 k1 req UB H1) as (Ereq & RB2 & OB2). fold B2 in RB2, OB2.
   subst req.
@@ -526,15 +579,15 @@ Proof.
   destruct (request_ok A1 p t i (d_id docB) docB cA myA e2 k2 resp UA H2) as (ik & rk & Eresp & Ee2 & Ek2 & RA2 & OA2 & VA2 & KA2).
   fold A2 in RA2, OA2, VA2, KA2. subst resp.
   (* other traffic at bob, then the response *)
-  destruct (run_frame Fixed midB B2 My t cB _ FmB OB2 RB2) as [OB3 RB3]. fold B3 in OB3, RB3.
+  destruct (run_frame Fixed midB B2 My t cB (Conn My t SRequested (d_id docB) 0 k) (d_id myA) (or_introl eq_refl) (or_intror eq_refl) NRmB FmB OB2 RB2) as [OB3 RB3]. fold B3 in OB3, RB3.
   destruct (response_ok Fixed B3 p t (d_id myA) myA ik xb yb cB _ e3 k3 cmpl OB3 RB3 H3) as (Ecmpl & Ee3 & Ek3 & RB4 & OB4 & VB4).
   fold B4 in RB4, OB4, VB4. subst cmpl. cbn [c_my c_rk] in RB4.
-  destruct (run_frame Fixed postB B4 My t cB _ FpB OB4 RB4) as [_ RB']. fold B' in RB'.
+  destruct (run_frame Fixed postB B4 My t cB (Conn My t SCompleted (d_id docB) (d_id myA) k) (d_id myA) (or_introl eq_refl) (or_introl eq_refl) NRpB FpB OB4 RB4) as [_ RB']. fold B' in RB'.
   (* other traffic at alice, then the complete *)
-  destruct (run_frame Fixed midA A2 Their t cA _ FmA OA2 RA2) as [OA3 RA3]. fold A3 in OA3, RA3.
+  destruct (run_frame Fixed midA A2 Their t cA (Conn Their t SResponded (d_id myA) (d_id docB) rk) (d_id docB) (or_introl eq_refl) (or_introl eq_refl) NRmA FmA OA2 RA2) as [OA3 RA3]. fold A3 in OA3, RA3.
   destruct (complete_ok Fixed A3 p t xa ya cA _ OA3 RA3 eq_refl) as (RA4 & OA4 & VA4 & ok & SB). fold A4 in RA4, OA4, VA4, SB.
   cbn [with_state c_ns c_th c_my c_their c_rk] in RA4.
-  destruct (run_frame Fixed postA A4 Their t cA _ FpA OA4 RA4) as [_ RA']. fold A' in RA'.
+  destruct (run_frame Fixed postA A4 Their t cA (Conn Their t SCompleted (d_id myA) (d_id docB) rk) (d_id docB) (or_introl eq_refl) (or_introl eq_refl) NRpA FpA OA4 RA4) as [_ RA']. fold A' in RA'.
   assert (VA3 : vget (a_vdr A3) (d_id docB) = Some docB) by (apply final_mono_vdr; exact VA2).
   split; [exists rk; exact RA'|]. split; [exact RB'|].
   split. { unfold resolve, A'. apply final_mono_vdr. rewrite VA4. exact VA3. }
